@@ -83,6 +83,14 @@ let handle ws = match ws with
            Buffer.add_string m (" " ^ send_s "T" (send_trailers own !ps fs)); Buffer.add_string s (" " ^ spec "T" fs) end
        | _ -> Buffer.add_string m " ?"; Buffer.add_string s " ?")) (String.split_on_char ',' ops);
     "ok" ^ Buffer.contents m ^ " | ok" ^ Buffer.contents s
+  | ["lim.txw"; "cli"; own; p; k] ->
+    (* the SETTINGS are stored before the stream opens, i.e. before the limit is read and compared *)
+    let own = n_of_string own in
+    let pv = if p = "-" then None else Some (n_of_string p) in
+    let ps = Some pv in
+    let fs = request_fields (int_of_string k) in
+    let spec = if N.leb (section_size fs) (spec_limit ps) then "W:ok:+" else "W:err:s:-:HeaderTooBig:-" in
+    "ok " ^ send_s "W" (send_request own ps fs) ^ " | ok " ^ spec
   | ["q.ref"; h] ->
     (match rfc_decode_static (bytes_of_hex h) with
      | Some fs -> "ok " ^ string_of_fields fs
